@@ -751,3 +751,11 @@ LEVEL_NOTE = ("Theorems are about the model (Model/Parser.lean, Model/Render.lea
               "the oracle/correspondence only. Whitespace insensitivity of lexing is C11; evaluation equality "
               "follows from tree equality and is additionally observed on closed arithmetic trees.")
 TECHNIQUE = "Lean 4 printer/parser round-trip proof by induction over trees + differential correspondence + parenthesisation oracle"
+
+
+# ---- refinement lemmas of the unified pipeline model for this property (Props/Pipeline2.lean): the fragment this check's
+# theorems are about IS what the whole-program model computes on the fragment's sub-language
+import pipeline as _pl
+LEAN_MODULES = LEAN_MODULES + [m for m in _pl.LEAN_MODULES2 if m not in LEAN_MODULES]
+THEOREMS = THEOREMS + [t for t in _pl.THEOREMS2.get(ID, []) if t not in THEOREMS]
+GEN = GEN + [g for g in _pl.GEN if g not in GEN]
